@@ -101,7 +101,7 @@ structure World where
   /-- `some j`: the world stops before mutating micro-step `j` (0-based).  A `write` is two
   micro-steps (create the file empty; fill it), every other mutating operation one. -/
   crashAt : Option Nat := none
-  /-- mutating micro-steps performed so far -/
+  /-- successful mutating micro-steps performed so far -/
   steps : Nat := 0
   /-- operations attempted so far, newest first (for `OpId` counting and the trace) -/
   trace : List TraceEv := []
@@ -148,7 +148,10 @@ def World.exec (w : World) (o : Op) : World × Resp :=
           | r => ({ w with trace := ⟨o, r⟩ :: w.trace }, r)
         | _ =>
           let (s', r) := applyOp w.enforceCreateNew w.store o
-          ({ w with store := s', steps := w.steps + 1, trace := ⟨o, r⟩ :: w.trace }, r)
+          let n := match r with
+            | .err _ => w.steps
+            | _ => w.steps + 1
+          ({ w with store := s', steps := n, trace := ⟨o, r⟩ :: w.trace }, r)
 
 inductive Outcome (α : Type)
   | ok (a : α)
